@@ -6,4 +6,5 @@ cd /verif/engine
 mkdir -p /verif/bin /verif/evidence /verif/replays
 go build -o /verif/bin/qv .
 if [ -f /verif/cshim/build.sh ]; then sh /verif/cshim/build.sh; fi
+/verif/bin/qv selftest
 echo "setup ok"
